@@ -29,7 +29,7 @@ func init() {
 		Level: "exploration",
 		Rule: "E1 bounded-exhaustive enumeration of the kind grammar T ::= scalar | string | [k]T | []T | map[K]T | *T | interface{} | struct{T,…} built with reflect to depth 3 (thorough 4) (every depth-1 type, then W types spread over each level as elements of the next): all 17 scalar kinds (bool, int8..64, int, uint8..64, uint, uintptr, float32/64, complex64/128) at every leaf position of depth-1 composites, a 7-type leaf subset plus 9 types of the previous level for binary structs; arrays of 0 and 2 elements; struct arity 1 and 2; map keys string/int32/uint; " +
 			"values per type from a shape alphabet (slices nil/empty/1/2 elements, maps nil/empty/1/2 entries, pointers nil/non-nil, interfaces nil/scalar/string/pointer/struct, strings \"\",\"a\",\"abc\" and 40 bytes; over leaf types also slices of 9 and 70 elements and maps of 9 and 40 entries; pointer values are deliberately REUSED in both elements of arrays and both fields of structs, so shared acyclic pointers occur). Oracle: the generator returns (value, size) and computes the size while building (headers 16/24/8/8/16, 8 for int/uint/uintptr; 64-bit platform asserted). size.Of on every value; Stat(v,d,m) for d in {0,1,3}, m in {0,1,10} and the AvgOf form: the number on the first line equals the expected size. " +
-			"A case is one (value, function) pair; non-trivial when the type is composite.",
+			"Plus 9 hand-written values of Go types reflect cannot build (unexported and embedded fields, named types, padding). A case is one (value, function) pair; non-trivial when the type is composite.",
 		Assumptions: []string{
 			"64-bit platform (asserted at start)",
 			"types deeper than D, struct arity > 2 and cyclic values are not generated (cycles are excluded by the statement)",
@@ -242,6 +242,48 @@ func c20Struct(fs ...c20Type) c20Type {
 	return ct
 }
 
+// Hand-written Go types the reflect-built grammar cannot produce: unexported and
+// embedded fields, named (defined) types, padding between fields ("plain sum of
+// the parts": padding does not count).
+type c20MyInt int
+type c20MyStr string
+type c20MyBool bool
+type c20Emb struct{ A int32 }
+type c20Unexp struct {
+	a int8
+	b int64
+	s c20MyStr
+	p *int32
+	i interface{}
+	m map[c20MyStr]c20MyInt
+	l []c20Emb
+}
+
+func c20Handwritten() c20Type {
+	i32 := int32(7)
+	t := c20Type{t: reflect.TypeOf(c20Unexp{}), composite: true}
+	add := func(x interface{}, sz int, d string) {
+		t.vals = append(t.vals, c20Val{reflect.ValueOf(x), sz, d})
+	}
+	add(c20MyInt(3), 8, "named int")
+	add(c20MyStr("abcd"), 16+4, "named string")
+	add([3]c20MyBool{true, false, true}, 3, "array of named bool")
+	add(struct {
+		a int8
+		b int64
+	}{1, 2}, 9, "struct{int8;int64} with padding")
+	add(struct {
+		c20Emb
+		B bool
+	}{c20Emb{1}, true}, 5, "embedded struct")
+	add(c20Unexp{}, 1+8+16+8+16+8+24, "all-unexported struct, zero value")
+	add(c20Unexp{a: 1, b: 2, s: "xyz", p: &i32, i: c20MyStr("q"), m: map[c20MyStr]c20MyInt{"k": 1, "kk": 2}, l: []c20Emb{{1}, {2}, {3}}},
+		1+8+(16+3)+(8+4)+(16+16+1)+(8+(16+1)+8+(16+2)+8)+(24+12), "all-unexported struct, filled")
+	add(&c20Unexp{a: 1}, 8+1+8+16+8+16+8+24, "pointer to unexported struct")
+	add([]interface{}{c20MyInt(1), nil, &i32, c20Emb{5}}, 24+(16+8)+16+(16+8+4)+(16+4), "[]interface{} of named values")
+	return t
+}
+
 // c20Types enumerates the grammar to the given depth, deterministically. width
 // bounds how many types of a level are used as elements of the next one (the
 // first level is always used completely).
@@ -386,6 +428,7 @@ func c20Run(c *mc.Ctx) {
 	c.Set("type_depth", D)
 	c.Set("types", len(types))
 	c.Set("types_per_depth", per)
+	types = append(types, c20Handwritten())
 	nvals := 0
 	for _, t := range types {
 		nvals += len(t.vals)
@@ -450,6 +493,7 @@ func c20Judge(kind string, cs c20Case) (got, want string) {
 		return fmt.Sprintf("Of=%s%d", p, g), "Of=0"
 	}
 	types, _ := c20Types(cs.Depth, cs.Width)
+	types = append(types, c20Handwritten())
 	if cs.Path[0] >= len(types) || cs.Path[1] >= len(types[cs.Path[0]].vals) {
 		return "case does not exist in this enumeration", ""
 	}
